@@ -279,8 +279,12 @@ def run(env) -> Result:
     mrnd = mkrng(env["seed"], "c03-mixed")
     for _ in range(180 if tier == "quick" else 5000):
         g = defs.Gen(mrnd, max_depth=mrnd.choice([1, 2, 2, 3]))
-        if mrnd.random() < 0.35:
+        pick = mrnd.random()
+        if pick < 0.3:
             plan, tree2 = s1_mixed.directed_dynamic(mrnd, g)
+        elif pick < 0.55:
+            plan, tree2 = s1_mixed.directed_bits(mrnd, g)
+            res.feat("family-d:directed-bit-fields")
         else:
             tree = s1_mixed.with_nested(mrnd, g, g.struct(), dyn_p=0.5)
             plan, tree2 = defs.hoist(tree, mrnd, p=0.7, top_align=mrnd.random() < 0.5, mixed=True)
